@@ -72,7 +72,8 @@ def run(ctx):
                 "for 3, gaps/fill/tail variants; thorough: all 720 orders and seeded pseudo-random 4..8 files); "
                 "spec->impl: parse of the canonical image and of every re-arranged image compared with the value (order "
                 "included), parse(serialize(v)) compared with v; impl->spec: serialize(v) of every generated value and of "
-                "seeded random maps up to 300 files (lengths around multiples of 32, Shift-JIS names) validated by TLC with "
+                "seeded random maps up to 300 files (lengths around multiples of 32, Shift-JIS names) and of maps with 255/256/257, "
+                "4095/4096/4097 and 20 000 mostly empty files (thorough: also 65 535) validated by TLC with "
                 "the statement's conditions (well-formed, exact, 32-aligned bodies, reference parse = value). "
                 "Non-trivial = image holding at least one file.")
     binary = ctx.build("release", "mvh_cont")
@@ -98,7 +99,7 @@ def run(ctx):
     # impl -> spec: the builder's images of the generated values and of random maps, judged by TLC
     runs, max_files = ctx.pick((60, 300), (3000, 300))
     rpath = ctx.path("pack_record.ndjson")
-    ctx.harness(binary, ["pack-record", rpath, str(runs), str(max_files)] + ([] if ctx.quick() else ["big"]))
+    ctx.harness(binary, ["pack-record", rpath, str(runs), str(max_files), "bounds"] + ([] if ctx.quick() else ["big"]))
     recorded = vlib.read_ndjson(rpath)
     events += recorded
     _validate(ctx, events)
